@@ -982,8 +982,8 @@ I2C_W, I2C_R, I2C_S, I2C_P = 1 << 10, 1 << 9, 1 << 11, 1 << 12
 class I2cPadMonitor:
     """I2C bus legality at the pads (independent of the model): with `prev`/`cur` the pad values of two consecutive
     cycles, SDA may change only while SCL is low in both, except for a START (SDA falling, SCL high) or STOP (SDA
-    rising, SCL high) that software requested (start/stop bit written to the transfer register since the core was last
-    idle).  Only transitions caused by the master are judged: cycles in which the external drive of the harness changed
+    rising, SCL high) that software requested (start/stop bit written to the transfer register and not yet seen on
+    the bus; clock stretching may defer it past the return to idle).  Only transitions caused by the master are judged: cycles in which the external drive of the harness changed
     are skipped.  Liveness: idle returns within 21 clk2x periods after the last command write."""
 
     def __init__(self):
@@ -1001,9 +1001,9 @@ class I2cPadMonitor:
             pscl, psda, pescl, pesda = p
             if psda != sda and pesda == esda and pescl == escl and (pscl or scl):
                 if pscl and scl and sda == 0 and self.req_start:
-                    pass
+                    self.req_start = False            # the requested START (possibly deferred by clock stretching)
                 elif pscl and scl and sda == 1 and self.req_stop:
-                    pass
+                    self.req_stop = False
                 else:
                     msg = "SDA %d->%d while SCL %d->%d (no %s requested)" % (
                         psda, sda, pscl, scl, "start" if sda == 0 else "stop")
@@ -1020,7 +1020,6 @@ class I2cPadMonitor:
                     self.since = 0
         elif idle and self.since is not None and self.since > 1:
             self.since = None
-            self.req_start = self.req_stop = False
         elif self.since is not None:
             self.since += 1
             if msg is None and self.since > 22 * (self.load + 1) + 4:
